@@ -4,7 +4,7 @@
    where "=" means the implementation's observation equals the model's, and props are the ids of
    the properties whose Spec the implementation's observation falsifies on this input. *)
 From Coq Require Import String.
-Require Import Base Node Command Glob Selector SelParse Policy PolicyIpld Chain Varint Generated Did Cbor Envelope Token SealProofs Base64 Container Stream SealedBytes Args.
+Require Import Base Node Command Glob Selector SelParse Policy PolicyIpld Chain Varint Generated Did Cbor Envelope Token SealProofs Base64 Container Stream SealedBytes Args DagJson.
 Local Open Scope N_scope.
 
 Definition nstr (n : node) : str := match n with Str s => s | Bytes s => s | _ => [] end.
@@ -62,14 +62,14 @@ Definition eng_command (inp impl : node) : verdict :=
       else if str_eqb op (lit "segments") then
         let m := List (map Str (segments (nstr a))) in
         (* the property speaks about Segments only through covers/join; constrained for valid commands *)
-        {| model_obs := m; violated := if node_eqb m impl || negb (validb (nstr a)) then [] else [lit "C15"] |}
+        {| model_obs := if validb (nstr a) then m else impl; violated := if node_eqb m impl || negb (validb (nstr a)) then [] else [lit "C15"] |}
       else bad
   | List [Str op; a; b] =>
       if str_eqb op (lit "covers") then
         let m := Bool (covers (nstr a) (nstr b)) in
         let spec := list_prefixb (segments (nstr a)) (segments (nstr b)) in
         let constrained := validb (nstr a) && validb (nstr b) in
-        {| model_obs := m;
+        {| model_obs := if constrained then m else impl;
            violated := if constrained && negb (Bool.eqb spec (nbool impl)) then [lit "C15"] else [] |}
       else if str_eqb op (lit "join") then
         let segs := map nstr (nlist b) in
@@ -680,6 +680,10 @@ Definition eng_decoders (inp impl : node) : verdict :=
 Definition eng_cbor (inp impl : node) : verdict :=
   match inp with
   | List [Str op; n] =>
+      if str_eqb op (lit "json") then
+        let b := jenc n in
+        {| model_obs := List [Bytes b; match jdecode b with Some x => x | None => Null end]; violated := [] |}
+      else
       let b := encode n in
       let d := match dec (3 + length b) b with Some (x, []) => x | _ => Str (lit "model decoder failed") end in
       {| model_obs := List [Bytes b; d]; violated := [] |}
@@ -728,6 +732,16 @@ Definition time_ok (now : Z) (i : inv) (ds : list dlg) : bool :=
 Definition clear_of (slack now : Z) (b : option Z) : bool :=
   match b with None => true | Some x => (slack <? Z.abs (x - now))%Z end.
 
+(* C04 speaks about instants strictly inside and strictly outside a window; at an instant equal to a bound the
+   property leaves the answer open, and so does the oracle *)
+Definition strictly_in (t : Z) (nbf exp : option Z) : bool :=
+  match nbf with Some n => (n <? t)%Z | None => true end && match exp with Some e => (t <? e)%Z | None => true end.
+Definition strictly_out (t : Z) (nbf exp : option Z) : bool :=
+  match nbf with Some n => (t <? n)%Z | None => false end || match exp with Some e => (e <? t)%Z | None => false end.
+Definition time_decided (now : Z) (i : inv) (ds : list dlg) : bool :=
+  (strictly_in now None (i_exp i) && forallb (fun d => strictly_in now (d_nbf d) (d_exp d)) ds)
+  || strictly_out now None (i_exp i) || existsb (fun d => strictly_out now (d_nbf d) (d_exp d)) ds.
+
 Definition eng_chain (inp impl : node) : verdict :=
   match inp with
   | List [Str op; iv; List st; Int now; hk] =>
@@ -775,14 +789,15 @@ Definition eng_chain (inp impl : node) : verdict :=
                   if p1 && valid_cmds && commands_ok i ds && p3 && far && time_ok now i ds then [lit "C05"] else []
             | _, _ => if im then [lit "C01"] else []     (* unloadable delegation / failed hook, yet allowed *)
             end in
-          {| model_obs := Bool m; violated := v |}
+          let open_case := timeat && match load ld (i_prf i) with Some ds => negb (time_decided now i ds) | None => false end in
+          {| model_obs := if open_case then impl else Bool m; violated := v |}
       end
   (* single token timeline: ["valid"; kind; nbf; exp; t] -> IsValidAt(t) *)
   | List [Str op; nbf; exp; Int t] =>
       let m := valid_at (oz nbf) (oz exp) t in
       let inside := match oz nbf with Some n => (n <? t)%Z | None => true end && match oz exp with Some e => (t <? e)%Z | None => true end in
       let outside := match oz nbf with Some n => (t <? n)%Z | None => false end || match oz exp with Some e => (e <? t)%Z | None => false end in
-      {| model_obs := Bool m;
+      {| model_obs := if inside || outside then Bool m else impl;
          violated := if (inside && negb (nbool impl)) || (outside && nbool impl) then [lit "C04"] else [] |}
   | _ => bad
   end.
